@@ -8,8 +8,39 @@ from ..lean import fbits, cbits, parse_floats, run_driver
 ID = 'C02'
 DRIVERS = ('driver_em',)
 THEOREMS = [
+    'PbBss.C02.em_bound',
+    'PbBss.C02.gem_step',
+    'PbBss.C02.weights_maximise_Q',
+    'PbBss.C02.eStep_is_posterior',
+    'PbBss.C02.fit_alternation',
+    'PbBss.C02.em_step_monotone',
+    'PbBss.C02.em_monotone',
+    'PbBss.C02.iterate_weight_invariants',
+    'PbBss.C02.logLik_method',
+    'PbBss.C02.sph_mstep_Q',
+    'PbBss.C02.diag_mstep_Q',
+    'PbBss.C02.watson_mstep_Q',
+    'PbBss.C02.watson_tangent_of_convex',
+    'PbBss.C02.gaussian_full_crux',
+    'PbBss.C02.product_mstep_Q',
+    'PbBss.C02.cacg_mstep_Q',
+    'PbBss.C02.tyler_step_Q',
+    'PbBss.C02.cacg_scale_invariant',
+    'PbBss.C02.cacg_logPdf_is_density',
+    'PbBss.C02.em_monotone_gmm_spherical',
+    'PbBss.C02.em_monotone_gmm_diagonal',
+    'PbBss.C02.em_monotone_cwmm',
+    'PbBss.C02.em_monotone_cacgmm',
 ]
 ASSUMPTIONS = [
+    "guards inactive on the judged stretch of the history (weights positive, E-step denominator clamp inactive, class mass >= tiny, "
+    "variances positive, cACG quadratic forms >= 10*tiny and eigenvalue/trace floors inactive, Watson concentration not clipped)",
+    "contracts of the externals: eigh (orthonormal eigenvectors, A U = U diag(lambda)), get_pca (unit top eigenvector, Rayleigh "
+    "maximal), Watson concentration = exact inverse of the hypergeometric ratio of a convex log-normaliser (TangentAt); the code's "
+    "spline only approximates it (error measured in the correspondence run)",
+    "with a saliency the monitored quantity is the saliency-weighted log-likelihood (DESIGN.md 5c)",
+    "full-covariance GMM and GCACGMM: the M-step inequality is proved (matrix-level crux, product-family lemma) but those two "
+    "families are not part of the executable EM model; they are covered by the search on the real code",
 ]
 
 from pb_bss.distribution import CACGMMTrainer  # noqa: E402
